@@ -24,7 +24,9 @@
        "every file listed in a model names that model", holds in the empty world and is preserved by all 26 operations),
        C10_remove_file_exact_owned, _index_owned, _refs_owned, C10_remove_file_other_tree(_owned),
        C10_remove_file_other_text(_owned), C10_text_is_projection, C10_projection_preorder, C10_file_self_contained,
-       C10_step2_owned, C10_history2_owned, C10_reachable2_owned (alphabet op2 of Tree/Script2.v), C10_duplicate_partial
+       C10_step2_owned, C10_history2_owned, C10_reachable2_owned (alphabet op2 of Tree/Script2.v), C10_duplicate_partial,
+       C10_serialize_exact, C10_serialize_exact_histories, C10_serialize_exact_reachable, C10_written_somewhere_histories
+       (the serialize side over histories: ArxmlFile::serialize writes exactly the elements attributed to the file)
    "leaves the content of every other file unchanged": the projection TREE of every other file g (fproj: names, stored
        types, attributes, character data, comments, order) is unchanged (C10_remove_file_other_tree); its TEXT is
        unchanged iff no written element of g loses its whole content: KeepsSome -> same text
@@ -66,7 +68,7 @@
 From AV Require Import Base.Bytes Base.Outcome Hash.HashModel Tree.Heap Tree.Ops Tree.Script Tree.Serialize Tree.Inv.
 From AV Require Import Tree.Files Tree.FilesProofsProj Tree.FilesProofsFrame Tree.FilesProofsAdd Tree.FilesProofsRemove Tree.FilesProofsExact Tree.FilesProofsLast Tree.FilesProofsMove
   Tree.FilesProofsInv Tree.FilesProofsHist Tree.FilesProofsTop Tree.FilesProofsExact2 Tree.FilesProofsOwned Tree.FilesProofsText Tree.FilesProofsLoad Tree.FilesProofsOp2
-  Tree.FilesLoad Tree.FilesProofsMerge Tree.FilesProofsBridge Tree.FilesProofsLoad2 Tree.FilesProofsLoad3 Tree.FilesProofsLoad4 Tree.FilesProofsLoad5 Tree.FilesProofsLoad6 Tree.FilesProofsOp2b Tree.FilesProofsDup Tree.FilesProofsDup2 Tree.FilesProofsDup3 Tree.FilesProofsNames Tree.FilesProofsNames2.
+  Tree.FilesLoad Tree.FilesProofsMerge Tree.FilesProofsBridge Tree.FilesProofsLoad2 Tree.FilesProofsLoad3 Tree.FilesProofsLoad4 Tree.FilesProofsLoad5 Tree.FilesProofsLoad6 Tree.FilesProofsOp2b Tree.FilesProofsDup Tree.FilesProofsDup2 Tree.FilesProofsDup3 Tree.FilesProofsNames Tree.FilesProofsNames2 Tree.FilesProofsSer.
 From AV Require Tree.CopyProofsDefs Tree.InvLoad Tree.Load Tree.MergeSpec Tree.MergePure Tree.MergePureProofs Tree.LoadRefineBase Tree.LoadRefinePure Tree.LoadRefineMain Tree.LoadRefineTop.
 From AV Require Import Tree.Script2.
 From AV Require Tree.Index Tree.Copy Xml.Parser Xml.Serializer Xml.RoundTripFile.
@@ -457,6 +459,69 @@ Theorem C10_reachable2_owned :
            attr_schema_location root_attrs l empty_world = Val w' ->
   TreeInv w' /\ FilesInv T w' /\ FilesOwned w'.
 Proof. exact reachable2_owned. Qed.
+
+(* ---------- the serialize side over HISTORIES: "the text produced for a file contains exactly the elements attributed
+   to that file".  WrittenExactly w1 f root text sa: text = header ++ body, body = ser_heap (filter f) from the root, and
+   the list of written elements (ser_ids, = what ser_heap visits: C10_ser_visits) contains only elements of the model
+   that are attributed to f and — Recursible: elements with sub-elements do not have character content mode (C07) — all
+   of them.  w1 is the world ArxmlFile::serialize leaves behind (it rewrites xsi:schemaLocation of the root). ---------- *)
+Theorem C10_serialize_exact :
+  forall (T : tables) (tab_el tab_at tab_en : nametab) (check_fn : N -> list N -> res bool) (float_fmt : N -> list N)
+         (attr_schema_location : N) (f : N) (w : world) (text : list N) (w1 : world),
+  TreeInv w -> FilesInv T w ->
+  f_serialize T tab_el tab_at tab_en check_fn float_fmt attr_schema_location f w = Val (OK text, w1) ->
+  TreeInv w1 /\ FilesInv T w1 /\
+  exists fl x, nth_opt (w_files w) (N.to_nat f) = Some fl /\ nth_opt (w_models w) (N.to_nat (f_model fl)) = Some x /\
+    WrittenExactly T tab_el tab_at tab_en float_fmt w1 f (m_root x) text (f_standalone fl).
+Proof. exact serialize_exact. Qed.
+
+(* after every history of the extended alphabet (the 26 operations, sort, set_version, check, serialize) that avoids the
+   recorded classes (steps_ok2) *)
+Theorem C10_serialize_exact_histories :
+  forall (T : tables) (tab_el tab_at tab_en : nametab) (check_fn : N -> list N -> res bool)
+         (float_parse : list N -> option N) (float_fmt : N -> list N)
+         (LATEST name_index name_definition_ref attr_schema_location : N) (root_attrs : list (N * cdata))
+         (l : list op2) (w0 w : world) (f : N) (text : list N) (w1 : world),
+  TreeInv w0 -> FilesInv T w0 -> FilesOwned w0 ->
+  steps_ok2 T tab_el tab_at tab_en check_fn float_parse float_fmt LATEST name_index name_definition_ref
+            attr_schema_location root_attrs l w0 = true ->
+  run_ops2 T tab_el tab_at tab_en check_fn float_parse float_fmt LATEST name_index name_definition_ref
+           attr_schema_location root_attrs l w0 = Val w ->
+  f_serialize T tab_el tab_at tab_en check_fn float_fmt attr_schema_location f w = Val (OK text, w1) ->
+  exists fl x, nth_opt (w_files w) (N.to_nat f) = Some fl /\ nth_opt (w_models w) (N.to_nat (f_model fl)) = Some x /\
+    WrittenExactly T tab_el tab_at tab_en float_fmt w1 f (m_root x) text (f_standalone fl).
+Proof. exact serialize_exact_histories. Qed.
+
+Theorem C10_serialize_exact_reachable :
+  forall (T : tables) (tab_el tab_at tab_en : nametab) (check_fn : N -> list N -> res bool)
+         (float_parse : list N -> option N) (float_fmt : N -> list N)
+         (LATEST name_index name_definition_ref attr_schema_location : N) (root_attrs : list (N * cdata))
+         (l : list op2) (w : world) (f : N) (text : list N) (w1 : world),
+  steps_ok2 T tab_el tab_at tab_en check_fn float_parse float_fmt LATEST name_index name_definition_ref
+            attr_schema_location root_attrs l empty_world = true ->
+  run_ops2 T tab_el tab_at tab_en check_fn float_parse float_fmt LATEST name_index name_definition_ref
+           attr_schema_location root_attrs l empty_world = Val w ->
+  f_serialize T tab_el tab_at tab_en check_fn float_fmt attr_schema_location f w = Val (OK text, w1) ->
+  exists fl x, nth_opt (w_files w) (N.to_nat f) = Some fl /\ nth_opt (w_models w) (N.to_nat (f_model fl)) = Some x /\
+    WrittenExactly T tab_el tab_at tab_en float_fmt w1 f (m_root x) text (f_standalone fl).
+Proof. exact serialize_exact_reachable. Qed.
+
+(* nothing lost on write, over histories: every element of a model with files is attributed to a file of the model and
+   written for it *)
+Theorem C10_written_somewhere_histories :
+  forall (T : tables) (tab_el tab_at tab_en : nametab) (check_fn : N -> list N -> res bool)
+         (float_parse : list N -> option N) (float_fmt : N -> list N)
+         (LATEST name_index name_definition_ref attr_schema_location : N) (root_attrs : list (N * cdata))
+         (l : list op2) (w0 w : world),
+  TreeInv w0 -> FilesInv T w0 -> FilesOwned w0 ->
+  steps_ok2 T tab_el tab_at tab_en check_fn float_parse float_fmt LATEST name_index name_definition_ref
+            attr_schema_location root_attrs l w0 = true ->
+  run_ops2 T tab_el tab_at tab_en check_fn float_parse float_fmt LATEST name_index name_definition_ref
+           attr_schema_location root_attrs l w0 = Val w ->
+  Recursible T w ->
+  forall x, In x (w_models w) -> m_files x <> [] ->
+  forall i, Reach w (m_root x) i -> exists f, In f (m_files x) /\ Attributed w i f /\ Proj T w (Some f) (m_root x) i.
+Proof. exact written_somewhere_histories. Qed.
 
 (* ---------- load_buffer (OpLoad): what a successful load keeps ----------
    FilesInvW = FilesInvM without rule (c) (a merge makes the membership of every element that only one side has
